@@ -714,4 +714,70 @@ theorem mapM_flatMap_ok {α β γ} (f : α → List β) (g : α → List γ) (p 
       ih (fun x hx => h x (List.mem_cons_of_mem _ hx))]
     rfl
 
+/-! ### a slice carries the modifications of its residues and of the termini it contains -/
+
+theorem fields_none_of_not_hasMods (a : Annotation) (h : hasMods a = false) :
+    a.isotope = none ∧ a.static = none ∧ a.labile = none ∧ a.unknown = none ∧ a.nterm = none ∧ a.cterm = none ∧
+    a.internal = none ∧ a.intervals = none ∧ a.charge = none ∧ a.adducts = none := by
+  simp only [hasMods, Bool.or_eq_false_iff, Option.isSome_eq_false_iff, Option.isNone_iff_eq_none] at h
+  obtain ⟨⟨⟨⟨⟨⟨⟨⟨⟨h1, h2⟩, h3⟩, h4⟩, h5⟩, h6⟩, h7⟩, h8⟩, h9⟩, h10⟩ := h
+  exact ⟨h1, h2, h3, h4, h5, h6, h7, h8, h9, h10⟩
+
+theorem slice_seq (a : Annotation) (s e : Int) : (slice a s e).seq = pySlice a.seq s e := by
+  unfold slice
+  split <;> rfl
+
+theorem slice_nterm (a : Annotation) (s e : Int) : (slice a s e).nterm = if s > 0 then none else a.nterm := by
+  unfold slice
+  split
+  · rename_i h
+    have := (fields_none_of_not_hasMods a (by simpa using h)).2.2.2.2.1
+    simp [this]
+  · rfl
+
+theorem slice_cterm (a : Annotation) (s e : Int) : (slice a s e).cterm = if e < alen a then none else a.cterm := by
+  unfold slice
+  split
+  · rename_i h
+    have := (fields_none_of_not_hasMods a (by simpa using h)).2.2.2.2.2.1
+    simp [this]
+  · rfl
+
+theorem slice_global (a : Annotation) (s e : Int) :
+    (slice a s e).isotope = a.isotope ∧ (slice a s e).static = a.static ∧ (slice a s e).labile = a.labile ∧
+    (slice a s e).unknown = a.unknown ∧ (slice a s e).charge = a.charge ∧ (slice a s e).adducts = a.adducts := by
+  unfold slice
+  split
+  · rename_i h
+    obtain ⟨h1, h2, h3, h4, _, _, _, _, h9, h10⟩ := fields_none_of_not_hasMods a (by simpa using h)
+    simp [h1, h2, h3, h4, h9, h10]
+  · exact ⟨rfl, rfl, rfl, rfl, rfl, rfl⟩
+
+theorem slice_internal (a : Annotation) (s e : Int) :
+    (slice a s e).internal = a.internal.map fun d =>
+      d.filterMap fun p => if s ≤ p.1 ∧ p.1 < e then some (p.1 - s, p.2) else none := by
+  unfold slice
+  split
+  · rename_i h
+    have := (fields_none_of_not_hasMods a (by simpa using h)).2.2.2.2.2.2.1
+    simp [this]
+  · rfl
+
+/-- the residue modifications of a slice are exactly those of the residues `s ≤ k < e`, re-indexed from 0 -/
+theorem mem_slice_internal (a : Annotation) (s e : Int) (d : List (Int × List Mod)) (h : a.internal = some d)
+    (k' : Int) (m : List Mod) :
+    (∃ d', (slice a s e).internal = some d' ∧ (k', m) ∈ d') ↔ ∃ k, (k, m) ∈ d ∧ s ≤ k ∧ k < e ∧ k' = k - s := by
+  rw [slice_internal, h]
+  simp only [Option.map_some, Option.some.injEq, exists_eq_left', List.mem_filterMap]
+  constructor
+  · rintro ⟨⟨k, m'⟩, hmem, hif⟩
+    split at hif
+    · rename_i hc
+      simp only [Option.some.injEq, Prod.mk.injEq] at hif
+      obtain ⟨rfl, rfl⟩ := hif
+      exact ⟨k, hmem, hc.1, hc.2, rfl⟩
+    · cases hif
+  · rintro ⟨k, hmem, h1, h2, rfl⟩
+    exact ⟨(k, m), hmem, by simp [h1, h2]⟩
+
 end Fragment
